@@ -422,6 +422,8 @@ type Contract struct {
 	PanicsIf []Clause
 	Inline   bool // never use this contract at call sites (always inline)
 	Modular  bool // always use this contract at call sites
+	Writes   []string // declared store write set: family expressions (proved as ensures [writes])
+	HasWrites bool
 }
 
 type SpecFunc struct {
@@ -650,6 +652,27 @@ func (cs *ContractSet) ParseContractText(file, text string) error {
 			} else if cur != nil {
 				cur.Uses = append(cur.Uses, u)
 			}
+		case "writes":
+			if cur == nil {
+				return fail(fmt.Errorf("writes outside func"))
+			}
+			cur.HasWrites = true
+			var conj []string
+			if rest != "nothing" && rest != "" {
+				for _, part := range splitTop(rest, ',') {
+					cur.Writes = append(cur.Writes, part)
+					conj = append(conj, "fam(key) != ("+part+")")
+				}
+			}
+			src := "forall key bytes :: S[key] == old(S[key])"
+			if len(conj) > 0 {
+				src = "forall key bytes :: " + strings.Join(conj, " && ") + " ==> S[key] == old(S[key])"
+			}
+			e, err := ParseExpr(src)
+			if err != nil {
+				return fail(err)
+			}
+			cur.Ensures = append(cur.Ensures, Clause{Label: "writes", Expr: e, Src: src, Line: l.line, File: file})
 		case "modifies":
 			if cur == nil {
 				return fail(fmt.Errorf("modifies outside func"))
